@@ -1,7 +1,7 @@
 CONSTANTS MaxFiles = 3
  Flaw_HttpClosesNormally = FALSE
  Flaw_MergesStaleDir = FALSE
- Flaw_WritesThrough = FALSE
+ Flaw_WritesThrough = TRUE
  Emit = FALSE
 SPECIFICATION Spec
 INVARIANTS HitIsComplete NoPartialCommit NoCollateral
